@@ -188,7 +188,7 @@ Section ParProofs.
   Lemma inv_step : forall tasks st th st', Inv tasks st -> pstep tasks st th = Some st' -> Inv tasks st'.
   Proof.
     intros [|t0 ts] st th st' HI Hs; [contradiction|].
-    unfold Inv in HI. cbv zeta in HI. destruct HI as [Hk [Hg [Hc [Hcr Hm]]]].
+    unfold Inv in HI. cbv zeta in HI. cbn [List.length] in HI. destruct HI as [Hk [Hg [Hc [Hcr Hm]]]].
     pose proof (ginv_all_length _ _ _ _ Hg) as Hlen.
     destruct th as [|j]; simpl in Hs.
     - (* the caller *)
@@ -235,32 +235,29 @@ Section ParProofs.
         set (g' := if is_panic (exec (S j) t) then mkG 1 true (g_slot g) else mkG 1 false (Some (exec (S j) t))).
         assert (Hpc' : g_pc g' = 1) by (subst g'; destruct (is_panic (exec (S j) t)); reflexivity).
         repeat split; auto; try lia.
-        * eapply ginv_all_set_nth; eauto. split; [intros; lia|].
+        * eapply ginv_all_set_nth; eauto. split; [intros; lia|]. cbn [Nat.add].
           unfold glocal. rewrite Hpc'. subst g'. destruct (is_panic (exec (S j) t)); simpl; auto.
         * specialize (Hpend g'). rewrite !Hp1, Epc, Hpc' in Hpend. simpl in Hpend. lia.
         * rewrite Hcr. subst g'. destruct (is_panic (exec (S j) t)); reflexivity.
-        * destruct (p_main st); auto.
       + (* GRecover *)
         inversion Hs; subst st'; clear Hs. unfold Inv; simpl. fold k.
         set (g' := if g_pan g then mkG 2 false (Some perr) else mkG 2 false (g_slot g)).
         assert (Hpc' : g_pc g' = 2) by (subst g'; destruct (g_pan g); reflexivity).
         repeat split; auto; try lia.
-        * eapply ginv_all_set_nth; eauto. split; [intros; lia|].
+        * eapply ginv_all_set_nth; eauto. split; [intros; lia|]. cbn [Nat.add].
           unfold glocal. rewrite Hpc'. unfold rec. subst g'.
           destruct (is_panic (exec (S j) t)); destruct Hl as [Hp Hsl]; rewrite Hp; simpl; auto.
         * specialize (Hpend g'). rewrite !Hp1, Epc, Hpc' in Hpend. simpl in Hpend. lia.
         * rewrite Hcr. subst g'. destruct (g_pan g); reflexivity.
-        * destruct (p_main st); auto.
       + (* GDone *)
         inversion Hs; subst st'; clear Hs. unfold Inv; simpl. fold k.
         destruct Hl as [Hpan Hslot].
         repeat split; auto; try lia.
-        * eapply ginv_all_set_nth; eauto. split; [intros; lia|].
+        * eapply ginv_all_set_nth; eauto. split; [intros; lia|]. cbn [Nat.add].
           unfold glocal. simpl. auto.
         * specialize (Hpend (mkG 3 (g_pan g) (g_slot g))). rewrite !Hp1, Epc in Hpend. simpl in Hpend. lia.
         * rewrite Hcr, Hpan. reflexivity.
-        * destruct (p_main st); auto.
-      + discriminate.
+      + destruct pc; discriminate.
   Qed.
 
   Lemma inv_run : forall tasks sch st st', Inv tasks st -> prun tasks sch st = Some st' -> Inv tasks st'.
@@ -363,3 +360,47 @@ Section Instances.
       destruct (exec_stream inv str t0); simpl in Hp; try discriminate. reflexivity.
   Qed.
 End Instances.
+
+(* ---- wg.Done before the recover handler: refuted ------------------------------------------- *)
+Section Refuted.
+  Let kind_of (n : string) : option tkind := if String.eqb n "ta" then Some KInv else None.
+  Let inv (n a : string) : tres := if String.eqb a "panic" then TPanic else TOk (n ++ ":" ++ a).
+  Let str (n a : string) : sres := SErr 7.
+  Let calls : list call := [mkCall "c0" "ta" "x"; mkCall "c1" "ta" "panic"].
+
+  (* the caller spawns the goroutine of call 1 and runs call 0; the goroutine runs its tool, which
+     panics, and calls wg.Done; the caller passes wg.Wait and scans — before the recover handler has
+     stored the panic error: cell 1 still holds its zero value (the model's unwritten cell; in Go a
+     nil error beside an empty output, resp. a nil stream) *)
+  Theorem par_v0_refuted :
+    exists tasks sch st r,
+      gen_tasks kind_of None true calls = Ok tasks
+      /\ par_invoke inv str prog_v0 tasks sch (pinit tasks) = Some st
+      /\ par_result assemble_invoke tasks st = Some r
+      /\ r <> tools_invoke kind_of inv str None [0; 1]%nat true calls
+      /\ tools_invoke kind_of inv str None [0; 1]%nat true calls = Err E_PANIC.
+  Proof.
+    eexists. exists [0; 0; 1; 1; 0]%nat. eexists. eexists.
+    split; [vm_compute; reflexivity|].
+    split; [vm_compute; reflexivity|].
+    split; [vm_compute; reflexivity|].
+    split; [vm_compute; discriminate|vm_compute; reflexivity].
+  Qed.
+
+  (* non-vacuity of par_invoke_refines: the same calls, the code's order, a schedule in which the
+     goroutine finishes last: the caller cannot pass wg.Wait before *)
+  Example par_ok_nonvacuous :
+    exists tasks st,
+      gen_tasks kind_of None true calls = Ok tasks
+      /\ par_invoke inv str prog_ok tasks [0; 0; 1; 1; 0]%nat (pinit tasks) = None
+      /\ par_invoke inv str prog_ok tasks [0; 0; 1; 1; 1; 0]%nat (pinit tasks) = Some st
+      /\ par_result assemble_invoke tasks st = Some (Err E_PANIC)
+      /\ p_crash st = false.
+  Proof.
+    eexists. eexists.
+    split; [vm_compute; reflexivity|].
+    split; [vm_compute; reflexivity|].
+    split; [vm_compute; reflexivity|].
+    split; vm_compute; reflexivity.
+  Qed.
+End Refuted.
